@@ -299,6 +299,51 @@ func run(r *Rng, tier string, n int) {
 			Viol("C20/APL/family-ignored", "APL prefixes of different address family reported as duplicates", map[string]string{"a": ta, "b": tc})
 		}
 	}
+	// records whose RDATA ends early: the generated unpack() methods return at `off == len(msg)`, the
+	// missing fields become zero values; re-packing such a record gives RDATA with different octets,
+	// so by the wire clause the two are NOT duplicates
+	for _, t := range types {
+		rr, info := GenRR(r, pool, t, false)
+		if rr == nil || !info.WellFormed || t == dns.TypeOPT {
+			continue
+		}
+		rr.Header().Name = "x."
+		rr.Header().Class = 1
+		buf := make([]byte, dns.Len(rr)+10)
+		off, err := dns.PackRR(rr, buf, 0, nil, false)
+		if err != nil || off < 13 {
+			continue
+		}
+		rdata := buf[13:off]
+		for p := 1; p < len(rdata); p++ {
+			w := append(append([]byte{}, buf[:11]...), byte(p>>8), byte(p))
+			w = append(w, rdata[:p]...)
+			var a dns.RR
+			if Protect(func() string {
+				x, _, e := dns.UnpackRR(w, 0)
+				if e != nil {
+					return "err"
+				}
+				a = x
+				return "ok"
+			}) != "ok" || a == nil {
+				continue
+			}
+			b2 := make([]byte, dns.Len(a)+10)
+			o2, err := dns.PackRR(a, b2, 0, nil, false)
+			if err != nil || o2 < 13 || bytes.Equal(b2[13:o2], rdata[:p]) {
+				continue
+			}
+			c, _, err := dns.UnpackRR(b2[:o2], 0)
+			if err != nil {
+				continue
+			}
+			st["truncated_rdata_pairs_checked"]++
+			if got := isDup(a, c); got != "ok:false" {
+				Viol("C20/wire/truncated-rdata-equals-zero-padded", "IsDuplicate="+got+" for two records from the wire whose RDATA octets differ ("+dns.TypeToString[t]+": "+Hx(rdata[:p])+" vs "+Hx(b2[13:o2])+")", map[string]string{"a": Hx(w), "b": Hx(b2[:o2])})
+			}
+		}
+	}
 	// slices of different length
 	{
 		a := &dns.TXT{Hdr: dns.RR_Header{Name: "t.", Rrtype: dns.TypeTXT, Class: 1}, Txt: []string{"a", "b"}}
